@@ -1011,6 +1011,16 @@ impl AclEntry {
         self.match_access_desc(&req.object, aux_acl_enabled)
     }
 
+    /// the (private) privilege of the entry
+    pub fn verif_privilege(&self) -> Privilege {
+        self.privilege
+    }
+
+    /// set the (private) auxiliary type of the entry
+    pub fn verif_set_auxiliary_type(&mut self, aux: Option<AccessControlAuxiliaryTypeEnum>) {
+        self.auxiliary_type = aux;
+    }
+
     pub fn verif_set_empty_lists(&mut self, subjects: bool, targets: bool) {
         if subjects {
             self.subjects.reinit(Nullable::init_some(Vec::init()));
